@@ -298,40 +298,52 @@ Proof. intros s p. split; [apply parse_rsu_no_panic|apply parse_espp_no_panic]. 
 Check C19_text_never_panics_partial : forall s p, parse_rsu s <> Panic p /\ parse_espp s <> Panic p.
 Print Assumptions C19_text_never_panics_partial.
 
-(* The per-grant zip of parse_eso_data: as many grants as the SHORTEST of the
-   six row lists, the k-th grant made of the k-th entry of each list. *)
-Theorem C19_zip_truncation : forall idx nums fmvs shares sales fees,
-  length (zip_grants idx nums fmvs shares sales fees)
-  = min6 (length idx) (length nums) (length fmvs) (length shares) (length sales) (length fees)
-  /\ forall k, (k < length (zip_grants idx nums fmvs shares sales fees))%nat ->
-       nth k (zip_grants idx nums fmvs shares sales fees) dg
-       = {| g_num := nth k nums 0%N; g_fmv := nth k fmvs 0%Qc; g_shares := nth k shares 0%Qc;
-            g_sale := nth k sales 0%Qc; g_fee := nth k fees 0%Qc |}.
-Proof. intros. split; [apply zip_grants_length|intros; apply zip_grants_nth; assumption]. Qed.
-Check C19_zip_truncation : forall idx nums fmvs shares sales fees,
-  length (zip_grants idx nums fmvs shares sales fees)
-  = min6 (length idx) (length nums) (length fmvs) (length shares) (length sales) (length fees)
-  /\ forall k, (k < length (zip_grants idx nums fmvs shares sales fees))%nat ->
-       nth k (zip_grants idx nums fmvs shares sales fees) dg
-       = {| g_num := nth k nums 0%N; g_fmv := nth k fmvs 0%Qc; g_shares := nth k shares 0%Qc;
-            g_sale := nth k sales 0%Qc; g_fee := nth k fees 0%Qc |}.
-Print Assumptions C19_zip_truncation.
+(* Option exercises (after the fix c454485 of parse_eso_data): parse_eso either
+   reports an error or returns EXACTLY one benefit per `Grant <n>` marker of the
+   exercise details, as many as there are rows of each of the five kinds, the
+   k-th benefit built from the k-th row of each kind (FMV, exercised shares,
+   grant number).  No grant is silently dropped, no value shifts to another grant. *)
+Theorem C19_eso_rows_complete_or_error : forall s bs, parse_eso s = Ok bs ->
+  exists header body nums fmvs shares sales fees,
+    eso_split s = Some (header, body) /\
+    search_for_rows k_grant_number vp_digits body = Ok nums /\
+    search_for_dec_rows k_exercise_mv true body = Ok fmvs /\
+    search_for_dec_rows k_shares_exercised false body = Ok shares /\
+    search_for_dec_rows k_sale_price true body = Ok sales /\
+    search_for_dec_rows k_comission_fee true body = Ok fees /\
+    length bs = grant_markers body /\
+    length nums = length bs /\ length fmvs = length bs /\ length shares = length bs /\
+    length sales = length bs /\ length fees = length bs /\
+    forall k, (k < length bs)%nat ->
+      tb_price (nth k bs db) = nth k fmvs 0%Qc /\ tb_shares (nth k bs db) = nth k shares 0%Qc
+      /\ tb_note (nth k bs db) = (k_option_grant_ ++ digits_of_N (u64_or_zero (nth k nums [])))%list.
+Proof. exact eso_rows_complete_or_error. Qed.
+Check C19_eso_rows_complete_or_error : forall s bs, parse_eso s = Ok bs ->
+  exists header body nums fmvs shares sales fees,
+    eso_split s = Some (header, body) /\
+    search_for_rows k_grant_number vp_digits body = Ok nums /\
+    search_for_dec_rows k_exercise_mv true body = Ok fmvs /\
+    search_for_dec_rows k_shares_exercised false body = Ok shares /\
+    search_for_dec_rows k_sale_price true body = Ok sales /\
+    search_for_dec_rows k_comission_fee true body = Ok fees /\
+    length bs = grant_markers body /\
+    length nums = length bs /\ length fmvs = length bs /\ length shares = length bs /\
+    length sales = length bs /\ length fees = length bs /\
+    forall k, (k < length bs)%nat ->
+      tb_price (nth k bs db) = nth k fmvs 0%Qc /\ tb_shares (nth k bs db) = nth k shares 0%Qc
+      /\ tb_note (nth k bs db) = (k_option_grant_ ++ digits_of_N (u64_or_zero (nth k nums [])))%list.
+Print Assumptions C19_eso_rows_complete_or_error.
 
-(* ... so a grant whose row is missing is silently dropped: the witness names
-   two grants, the parse succeeds with one benefit (violation candidate of
-   "each benefit is accounted for exactly once, or an error"). *)
-Theorem C19_eso_each_grant_once_refuted :
+(* The regression document of the fixed defect (two grants named, the second
+   without its Comission/Fee row) is now an error; and the hypothesis of the
+   theorem above is satisfiable (three grants, three benefits). *)
+Example C19_eso_incomplete_is_error :
   grant_number_rows dropped_grant_witness = 2%nat /\
-  exists b, parse_text dropped_grant_witness = Ok (Benefits [b])
-            /\ tb_note b = w_note_1234 /\ Qceqb (tb_shares b) (QcZ 100) = true
-            /\ match tb_stc_fee b with Some f => Qceqb f (QcZ 10) | None => false end = true.
-Proof. exact eso_grant_dropped. Qed.
-Check C19_eso_each_grant_once_refuted :
-  grant_number_rows dropped_grant_witness = 2%nat /\
-  exists b, parse_text dropped_grant_witness = Ok (Benefits [b])
-            /\ tb_note b = w_note_1234 /\ Qceqb (tb_shares b) (QcZ 100) = true
-            /\ match tb_stc_fee b with Some f => Qceqb f (QcZ 10) | None => false end = true.
-Print Assumptions C19_eso_each_grant_once_refuted.
+  parse_text dropped_grant_witness = Rej (RejOther TErr.eso_incomplete).
+Proof. exact eso_incomplete_rejected. Qed.
+Example C19_eso_rows_complete_nonvacuous :
+  match parse_eso (render_eso false ex_eso) with Ok bs => length bs = 3%nat | _ => False end.
+Proof. vm_compute. reflexivity. Qed.
 
 (* Non-vacuity *)
 Example C19_rsu_text_roundtrip_nonvacuous :
@@ -342,6 +354,3 @@ Example C19_tc_post_text_roundtrip_nonvacuous :
   wf_post ex_post = true /\ tt_act (post_record ex_post) = XSell
   /\ Qceqb (tt_comm (post_record ex_post)) (Qcfrac 412 100) = true.
 Proof. split; [exact ex_post_wf|]. split; vm_compute; reflexivity. Qed.
-Example C19_zip_truncation_nonvacuous :
-  length (zip_grants [[]; []] [1%N; 2%N] [0%Qc; 0%Qc] [0%Qc; 0%Qc] [0%Qc; 0%Qc] [0%Qc]) = 1%nat.
-Proof. reflexivity. Qed.
